@@ -18,6 +18,7 @@ ENGINES = {
     "C35": "e5_refs",
     "C26": "e7_ns",
     "C27": "e7_ns",
+    "C14": "e6_loops",
 }
 
 
